@@ -55,10 +55,13 @@ def extraction(unit, repo):
                 if p.selector == k or p.selector.startswith(k + " ") or p.selector.startswith(k + "{"):
                     opts = v
             toks = R.apply_item_rewrites([t.clone() for t in p.toks], log, opts)
-            if paths:
-                toks = R.r13_paths(toks, log, paths)
-            if prefix:
-                toks = R.r13_prefix_defs(toks, log, prefix, pnames)
+            spaths = paths
+            if src.get("paths"):
+                spaths = sorted([(k.split("::"), v) for k, v in src["paths"].items()] + paths, key=lambda kv: -len(kv[0]))
+            if spaths:
+                toks = R.r13_paths(toks, log, spaths)
+            if prefix or src.get("aliases"):
+                toks = R.r13_prefix_defs(toks, log, prefix or "", pnames, src.get("aliases"))
             for t in toks:   # inner doc comments are only legal at the top of a file
                 if "//!" in t.ws or "/*!" in t.ws:
                     t.ws = t.ws.replace("//!", "// !").replace("/*!", "/* !")
